@@ -17,9 +17,14 @@ EXPLANATION = (
     "constructors store ovo verbatim, every evaluate tests self.ovo un-negated, __call__ forwards (y_pred, affinity, "
     "return_grad) in order; (c) pairwise structure: for TV, MMD and Wasserstein the one-vs-one evaluation computes a value with "
     "two cluster axes and the one-vs-all evaluation does not (a cluster-vs-cluster distance needs cross-cluster terms); (d) the "
-    "f-divergence family needs no affinity (compute_affinity returns None). Not decided: that each closed form equals the named "
-    "divergence (constants, weights, swapped branches in KL/Hellinger/chi2).")
-ASSUMPTIONS = ["the naming convention <distance>_<ova|ovo> stated by the property", "numpy shape semantics of gcverif/e3_numpy.py"]
+    "f-divergence family needs no affinity (compute_affinity returns None). (e) each closed form equals the named divergence: evaluate() "
+    "is translated to an index-notation term with symbolic sizes (gcverif.e8_numpy) and compared, as a canonical form on the simplex "
+    "(sum_k P[i,k] = 1), with the term of the reference definition written from the documented definition in gcverif/gemini_specs.py "
+    "(pi-weighted KL / TV / squared Hellinger / (chi2+1)/2 / kernel MMD / Wasserstein-1 between cluster conditionals and the data "
+    "distribution, or between pairs of cluster conditionals); all n and K at once, both modes, 6 classes (MI inherits KL one-vs-all, "
+    "checked in (a)).")
+from ..e8_gemini import ASSUMPTIONS as E8_ASSUMPTIONS
+ASSUMPTIONS = E8_ASSUMPTIONS + ["the naming convention <distance>_<ova|ovo> stated by the property", "numpy shape semantics of gcverif/e3_numpy.py"]
 
 PREFIX = {"mmd": "MMDGEMINI", "wasserstein": "WassersteinGEMINI", "kl": "KLGEMINI", "tv": "TVGEMINI", "hellinger": "HellingerGEMINI",
           "chi2": "ChiSquareGEMINI", "mi": "KLGEMINI"}
@@ -42,11 +47,97 @@ def registry_eval(pm, name):
     return res
 
 
+FLOAT_DTYPES = {"np.float64", "float", "np.double", "np.float_", "'float64'", '"float64"', "np.float32", "'float'", '"float"', "np.longdouble"}
+
+
+def buffer_dtypes(pm, ctx):
+    """an integer distance matrix (precomputed hop counts, Hamming counts, Manhattan distances on a grid) is a legal affinity:
+    a buffer that inherits its dtype truncates every transport cost / distance stored in it"""
+    n_sites = 0
+    for cname in ("KLGEMINI", "TVGEMINI", "HellingerGEMINI", "ChiSquareGEMINI", "MMDGEMINI", "WassersteinGEMINI"):
+        ci = pm.classes.get(cname)
+        f = ci.methods.get("evaluate") if ci else None
+        if f is None:
+            raise AnalysisError(f"anchor vanished: {cname}.evaluate")
+        params = func_params(f)
+        for n in ast.walk(f):
+            if not isinstance(n, ast.Call):
+                continue
+            cn = call_name(n) or ""
+            last = cn.split(".")[-1]
+            if last in ("zeros", "empty", "ones", "full") and cn.split(".")[0] in ("np", "numpy"):
+                n_sites += 1
+                site = f"{cname}.evaluate: {norm_src(n)[:50]}"
+                dt = next((k.value for k in n.keywords if k.arg == "dtype"), None)
+                if dt is None and last != "full" and len(n.args) > 1:
+                    dt = n.args[1]
+                if dt is None:
+                    ctx.ok("C01-f", site, "default float64")
+                    continue
+                src = norm_src(dt)
+                if src in FLOAT_DTYPES:
+                    ctx.ok("C01-f", site, src)
+                elif isinstance(dt, ast.Attribute) and dt.attr == "dtype" and isinstance(dt.value, ast.Name) and dt.value.id in params:
+                    ctx.violation("C01-f", ci.unit.relpath, f"{cname}.evaluate", norm_src(n)[:120], f"the buffer takes the dtype of the argument `{dt.value.id}`: with an integer "
+                                  f"{dt.value.id} (a precomputed distance matrix of counts) every value stored in it is truncated to an integer, so the score is no longer the "
+                                  f"documented distance", line=n.lineno, site=site)
+                elif src in ("int", "np.int64", "np.int32", "np.intp", "bool", "np.int_"):
+                    ctx.violation("C01-f", ci.unit.relpath, f"{cname}.evaluate", norm_src(n)[:120], f"integer buffer ({src}) for real-valued distances", line=n.lineno, site=site)
+                else:
+                    ctx.unrecognised("C01-f", site, f"dtype expression {src}")
+            elif last in ("zeros_like", "empty_like", "ones_like", "full_like") and cn.split(".")[0] in ("np", "numpy") and n.args:
+                n_sites += 1
+                site = f"{cname}.evaluate: {norm_src(n)[:50]}"
+                dt = next((k.value for k in n.keywords if k.arg == "dtype"), None)
+                base = n.args[0]
+                if dt is not None and norm_src(dt) in FLOAT_DTYPES:
+                    ctx.ok("C01-f", site, norm_src(dt))
+                elif isinstance(base, ast.Name) and len(params) > 2 and base.id == params[2] and dt is None:
+                    ctx.violation("C01-f", ci.unit.relpath, f"{cname}.evaluate", norm_src(n)[:120], f"the buffer takes the dtype of the affinity matrix: integer distances truncate the "
+                                  f"stored values", line=n.lineno, site=site)
+                else:
+                    ctx.ok("C01-f", site, "shaped like a floating-point array")
+    if n_sites == 0:
+        ctx.ok("C01-f", "no explicitly allocated buffer in evaluate()")
+
+
+def score_is_definition(pm, ctx):
+    from ..e8_gemini import check_score
+    from ..e8_index import Unsupported
+    from ..gemini_specs import SPECS
+    for (cname, ovo) in SPECS:
+        ci = pm.classes.get(cname)
+        if ci is None or "evaluate" not in ci.methods:
+            raise AnalysisError(f"anchor vanished: {cname}.evaluate")
+        f = ci.methods["evaluate"]
+        site = f"{cname}.evaluate[ovo={ovo}]: score = definition"
+        try:
+            status, detail = check_score(pm, cname, ovo)
+        except Unsupported as e:
+            ctx.unrecognised("C01-e", site, f"outside the translated numpy subset: {e}")
+            continue
+        except RecursionError:
+            ctx.unrecognised("C01-e", site, "term too deep")
+            continue
+        if status == "equal":
+            ctx.ok("C01-e", site)
+        elif status == "undecided":
+            ctx.undecided_site("C01-e", site, detail)
+        else:
+            ctx.violation("C01-e", ci.unit.relpath, f"{cname}.evaluate", f"score[ovo={ovo}]", f"the {'one-vs-one' if ovo else 'one-vs-all'} score is not the "
+                          f"documented distance: {detail}", line=f.lineno, site=site)
+
+
 def run(pm, ctx):
     ctx.rule("C01-a", "a registry name must select the objective and the mode it names", floor=13)
     ctx.rule("C01-b", "the ovo flag must reach the branch that implements it", floor=12)
     ctx.rule("C01-c", "a one-vs-one distance needs cluster-vs-cluster terms; a one-vs-all distance does not", floor=6)
     ctx.rule("C01-d", "f-divergences are computed from the predictions alone", floor=1)
+    ctx.rule("C01-f", "distances and scores are accumulated in floating-point buffers whatever the dtype of the affinity matrix", floor=2)
+    buffer_dtypes(pm, ctx)
+    ctx.rule("C01-e", "the closed form computed by evaluate() is the documented statistical distance (canonical-form equality with the "
+             "reference definition on the simplex)", floor=12)
+    score_is_definition(pm, ctx)
     te = TableEval(pm)
     u = pm.unit("gemclus.gemini._utils")
     f = u.func("_str_to_gemini")
@@ -204,4 +295,18 @@ def controls(pm, tier):
     mut(F, "        super().__init__(ovo=False, epsilon=epsilon)", "        super().__init__(ovo=True, epsilon=epsilon)", "C01-b", "MI becomes one-vs-one", also=("C01-a",))
     mut(G, "        if self.ovo:\n            omega = alpha.T @ gamma", "        if not self.ovo:\n            omega = alpha.T @ gamma", "C01-b", "MMD branches swapped", also=("C01-c",))
     mut(F, "        if self.ovo:\n            # Extend to 3d tensors", "        if self.ovo and False:\n            # Extend to 3d tensors", "C01-c", "TV one-vs-one computes the one-vs-all difference", also=("C01-b",))
+    mut(F, "            mutual_information = prediction_entropy - cluster_entropy", "            mutual_information = prediction_entropy - 0.5 * cluster_entropy",
+        "C01-e", "KL one-vs-all: half of the cluster entropy")
+    mut(F, "        tv_gemini = 0.5 * np.sum(pseudo_estimates)", "        tv_gemini = np.sum(pseudo_estimates)", "C01-e", "TV loses its factor 1/2")
+    mut(F, "            estimates = np.square(estimates)\n", "            estimates = estimates * 1\n", "C01-e", "Hellinger one-vs-one without the square")
+    mut(F, "            chi2_gemini = np.mean(alpha*beta)", "            chi2_gemini = np.mean(alpha*alpha)", "C01-e", "chi2 one-vs-one with alpha twice")
+    mut(G, "            delta = np.sqrt(np.maximum(a + c - 2 * b, 0))", "            delta = np.sqrt(np.maximum(a + c - b, 0))", "C01-e", "MMD one-vs-all cross term counted once")
+    mut(G, "            mmd_ovo_value = (pi @ delta @ pi.T).squeeze()", "            mmd_ovo_value = (delta @ pi.T).sum()", "C01-e", "MMD one-vs-one loses one pi weight")
+    mut(G, "            wasserstein_ova_value = np.dot(pi, wasserstein_distances)", "            wasserstein_ova_value = np.sum(wasserstein_distances)", "C01-e",
+        "Wasserstein one-vs-all unweighted")
+    mut(G, "        wy = np.ascontiguousarray((y_pred / (pi.reshape((1, -1)) * N)).T)", "        wy = np.ascontiguousarray((y_pred / (pi.reshape((1, -1)))).T)", "C01-e",
+        "cluster conditionals not normalised")
+    mut(G, "            delta = np.sqrt(np.maximum(a + c - 2 * b, 0))", "            delta = np.sqrt(np.maximum(a + c - 2 * b, 0) + self.epsilon)", "C01-e",
+        "epsilon under the square root")
+    mut(G, "            wasserstein_distances = np.zeros((K, K))", "            wasserstein_distances = np.zeros((K, K), dtype=affinity.dtype)", "C01-f", "distance buffer inherits the affinity dtype")
     return out
